@@ -71,6 +71,10 @@ func execute(desc string) (obs string) {
 		_, obs := executeWFFull(desc)
 		return obs
 	}
+	if op == "cw" {
+		_, obs := executeCWFull(desc)
+		return obs
+	}
 	stack, _ := hx.KV(desc, "stack")
 	id := uint16(kvU64(desc, "suite"))
 	tl := stack == "tlcp"
@@ -644,7 +648,7 @@ func main() {
 	tr := hx.NewTrace(o.Out)
 	defer tr.Close()
 	emit := func(desc string) {
-		if op, _ := hx.KV(desc, "op"); op == "hs" || op == "rx" || op == "wf" {
+		if op, _ := hx.KV(desc, "op"); op == "hs" || op == "rx" || op == "wf" || op == "cw" {
 			cfg := configPart(desc)
 			var captured, obs string
 			switch op {
@@ -652,6 +656,8 @@ func main() {
 				captured, obs = executeRXFull(cfg)
 			case "wf":
 				captured, obs = executeWFFull(cfg)
+			case "cw":
+				captured, obs = executeCWFull(cfg)
 			default:
 				captured, obs = executeHSFull(cfg)
 			}
@@ -677,6 +683,13 @@ func main() {
 		rxCases(o, emit)
 	case "wf":
 		wfCases(o, emit)
+	case "cw":
+		cwCases(o, func(desc, captured, obs string) {
+			if captured != "" {
+				desc += " " + captured
+			}
+			tr.Line(desc, obs)
+		})
 	default:
 		primCases(o, emit, *oracle)
 	}
